@@ -69,7 +69,8 @@ def build(ctx, v, t):
         return tuple(build(ctx, x, tt) for x, tt in zip(items, t.ts))
     if isinstance(t, S.Rec):
         d = dict((k, x) for k, x in v["__dict__"]) if isinstance(v, dict) and "__dict__" in v else v
-        return {k: build(ctx, d.get(k), ft) for k, ft in t.fields.items()}
+        opt = set(getattr(t, "optional_keys", ()) or ())
+        return {k: build(ctx, d.get(k), ft) for k, ft in t.fields.items() if not (k in opt and isinstance(d, dict) and k not in d)}
     if isinstance(t, S.List):
         items = v["__sortedlist__"] if isinstance(v, dict) and "__sortedlist__" in v else v
         return [build(ctx, x, t.t) for x in (items or [])]
@@ -243,6 +244,5 @@ def build_trialcfg(ctx, f, raw):
 
 @builder("status_best")
 def build_status_best(ctx, f, raw):
-    o = types.SimpleNamespace(**f)
-    o.__class__ = type("StatusStub", (types.SimpleNamespace,), {"__str__": lambda self: "<status>"})
-    return o
+    cls = type("StatusStub", (types.SimpleNamespace,), {"__str__": lambda self: "<status>"})
+    return cls(**f)
